@@ -15,7 +15,11 @@ FUNCTIONS = [('ComposeEdif', '_get_wire_index_', 'method', [('cable', 'is:Cable'
              # the tests by which the writer chooses between the (array ...) / (member ...) spelling and the plain one (composer.py: port.is_array,
              # cable.is_array, port_ref.is_array): inherited from Bundle, resolved through the overriding _items() of Port / Cable
              ('Port', 'is_scalar', 'getter', []), ('Port', 'is_array', 'getter', []),
-             ('Cable', 'is_scalar', 'getter', []), ('Cable', 'is_array', 'getter', [])]
+             ('Cable', 'is_scalar', 'getter', []), ('Cable', 'is_array', 'getter', []),
+             # ... and the setters through which the EDIF reader records the spelling it saw (parser.py: port.is_array = True, cable.is_array = ...,
+             # is_scalar = True): what is written is what the getter reads back, the only refusal is a one-bit claim about a wider bundle
+             ('Port', 'is_array', 'setter', [('value', 'bool')]), ('Cable', 'is_array', 'setter', [('value', 'bool')]),
+             ('Port', 'is_scalar', 'setter', [('value', 'bool')]), ('Cable', 'is_scalar', 'setter', [('value', 'bool')])]
 POSITIONAL = {('ComposeEdif', '_get_wire_index_', 'method')}
 
 
@@ -77,5 +81,26 @@ def post_arrayness(want_array):
     return f
 
 
-POSTS = {'ComposeEdif._get_wire_index_': post,
+def post_set_arrayness(sets_array):
+    def f(ctx, spec, h0, s, ekind, args, val):
+        c = ctx; h = s.heap; b = args[0][1]; v = args[1][1]
+        many = If(c.isa(b, 'Port'), c.len(h0['_pins'][b]) > 1, c.len(h0['_wires'][b]) > 1)
+        claims_one_bit = Not(v) if sets_array else v
+        others = And([h[f_] == h0[f_] for f_ in h0 if f_ in h and f_ != '_is_scalar' and not (h[f_] is h0[f_])] or [BoolVal(True)])
+        if ekind == 'RuntimeError':
+            return [('C03', 'refuses-only-a-one-bit-claim-about-a-wider-bundle', And(many, claims_one_bit)),
+                    ('C03', 'refusal-changes-nothing', And(others, h['_is_scalar'] == h0['_is_scalar']))]
+        if ekind != 'normal':
+            return [('C03', 'does-not-raise-%s' % ekind, BoolVal(False))]
+        x = Const('xq_sa', c.Ref)
+        flag = h['_is_scalar'][b]
+        reads_array = Or(many, flag == c.pyFalse)          # what the getter contract above answers in the new heap (the lists are unchanged)
+        return [('C03', 'accepted-unless-a-one-bit-claim-about-a-wider-bundle', Not(And(many, claims_one_bit))),
+                ('C03', 'stores-a-bool', Or(flag == c.pyTrue, flag == c.pyFalse)),
+                ('C03', 'reads-back-as-written', reads_array == (v if sets_array else Not(v))),
+                ('C03', 'nothing-else-changed', And(others, ForAll([x], Implies(x != b, h['_is_scalar'][x] == h0['_is_scalar'][x]))))]
+    return f
+
+
+POSTS = {'ComposeEdif._get_wire_index_': post, 'Bundle.is_array=': post_set_arrayness(True), 'Bundle.is_scalar=': post_set_arrayness(False),
          'Bundle.is_scalar': post_arrayness(False), 'Bundle.is_array': post_arrayness(True)}
